@@ -51,7 +51,7 @@ def impersonate(
     tcp.options = (
         [impersonated_value if option[0] == "MSS" else option for option in tcp.options]
         if has_mss
-        else [impersonated_value]
+        else [impersonated_value, *tcp.options]
     )
 
     return packet
